@@ -154,12 +154,12 @@ Print Assumptions C10_key_normalisation.
    cancelled/expired context once the server's own context is done *)
 Theorem C10_accept_continues : forall e ctx_done,
   fst (fst (check_accept_error e ctx_done)) = false <->
-  (e = AccListenerClosed \/ (e = AccDeadlineOrCanceled /\ ctx_done = true)).
+  (e = AccListenerClosed \/ ((e = AccDeadline \/ e = AccCanceled) /\ ctx_done = true)).
 Proof. exact accept_stops_iff. Qed.
 Print Assumptions C10_accept_continues.
 
 Theorem C10_accept_loop_keeps_running : forall script calls served reported,
-  (forall e d, In (e, d) script -> e <> AccListenerClosed /\ (e = AccDeadlineOrCanceled -> d = false)) ->
+  (forall e d, In (e, d) script -> e <> AccListenerClosed /\ (e = AccDeadline \/ e = AccCanceled -> d = false)) ->
   fst (fst (accept_loop script calls served reported)) = None.
 Proof. exact accept_loop_continues. Qed.
 Print Assumptions C10_accept_loop_keeps_running.
